@@ -12,6 +12,8 @@ Case syntax (one history per line):
         all IPv4 lists first, then per v6 profile its IA_NA list before its PD list
   res <profiles as for reg, pools of one family disjoint> ; ops      (pkg/dhcp harness, exported API only)
         Y<sid>,<pf>,<override>,<vrf>,<addr|->   Z<sid>,<pf>,<naov>,<pdov>,<vrf>,<addr|->,<pfx|->   A.. L.. I..
+        y<sid> / z<sid>: ResolveV4 / ResolveV6 again with the context the session's last Y / Z left behind
+        n<sid> / m<sid>: the caller clears the IPv4 address / the IPv6 address and prefix in that context
   addr: 4:<dec> | 6:<dec> | nil | bad      pfx: nil | <addr>/<ones>:<bits> | <addr>/mnil | <addr>/mbad
 """
 ID = "C01"
@@ -19,10 +21,10 @@ HARNESSES = [dict(name="allocator", pkg="./pkg/allocator/", test="TestVerifC01",
                   files=[("pkg/allocator/zz_verif_c01_test.go", "harness/C01/zz_verif_c01_test.go")]),
              dict(name="dhcp", pkg="./pkg/dhcp/", test="TestVerifC01Resolve", timeout=900,
                   files=[("pkg/dhcp/zz_verif_c01_resolve_test.go", "harness/C01/zz_verif_c01_resolve_test.go")])]
-# repaired: every recorded defect repaired; unguarded: /repo 85029df (range loops unguarded, PD prefix length
-# unvalidated); sharedvrf: additionally one poolVRFs map for the three families (before 85029df);
-# defective: additionally the two defects fixed by d00d766 / c2652db
-VARIANTS = ["repaired", "unguarded", "sharedvrf", "defective"]
+# Every recorded finding of C01 is fixed in /repo (d00d766, c2652db, 85029df, a1ebdc8, 1de6b72): the correspondence
+# compares with the repaired model only, so a regression to any of them is reported as a VIOLATION.  (The Coq model
+# keeps the historical variants for the `_refuted` theorems.)
+VARIANTS = ["repaired"]
 
 
 def route(case):
@@ -373,6 +375,9 @@ def gen_registry(rng, resolve=False, maxops=45):
         k = rng.random()
         s = rng.randint(1, 4)
         fam = rng.choice(["4", "4", "n", "d", "d"])
+        if resolve and rng.random() < 0.22:
+            ops.append(rng.choice(["y%d", "y%d", "z%d", "z%d", "n%d", "m%d"]) % s)
+            continue
         if resolve:
             if k < 0.25:
                 have = "-" if rng.random() < 0.6 or not keys["4"] else atok(4, rng.randint(*rng.choice(keys["4"])[1:]))
@@ -415,6 +420,55 @@ def gen_registry(rng, resolve=False, maxops=45):
                 for vrf in (0, 1, 2):
                     ops += ["A%s%d,%d,0,%d" % (fam, rng.randint(1, 4), pf, vrf)] * rng.randint(2, 6)
     return "%s %d %s ; %s" % ("res" if resolve else "reg", len(order), " ".join(toks), " ".join(ops))
+
+
+def gen_reentry(rng):
+    """Resolve re-entry: a session calls ResolveV4/ResolveV6 again with the context its earlier call left
+    behind (REQUEST after DISCOVER, renew, retry after a refusal), while the registry state moved on behind
+    that context: its address was released by value / in pool, another session was given it, the pool was
+    exhausted, the address field was cleared.  Pools of 1-3 addresses so that reuse is certain whatever the
+    allocation policy: every address of the pool is released and every one is taken again."""
+    size = rng.randint(1, 3)
+    b4 = 0x0a000100
+    b6 = 0x20010db8 << 96
+    bd = 0x20010dba << 96
+    vrf = rng.choice([0, 1])
+    toks = ["1", "4", "-", "1", "1", "0", str(vrf), "%s/24" % atok(4, b4), atok(4, b4 + 1), atok(4, b4 + size), "-", "0",
+            "1", "n", "-", "1", "1", "0", str(vrf), "%s/120" % atok(6, b6), atok(6, b6 + 1), atok(6, b6 + size), "-", "0",
+            "1", "d", "-", "1", "1", "0", str(vrf), "%s/%d" % (atok(6, bd), 64 - (size - 1).bit_length() if size > 1 else 64), "64", "-", "-", "0"]
+    npd = 1 << ((size - 1).bit_length() if size > 1 else 0)
+    v4 = [atok(4, b4 + i) for i in range(1, size + 1)]
+    v6 = [atok(6, b6 + i) for i in range(1, size + 1)]
+    pd = ["6:%d/64:128" % (bd + (i << 64)) for i in range(npd)]
+    fam = rng.choice(["4", "6"])
+    ops = []
+    if fam == "4":
+        first = "Y1,1,0,%d,-" % vrf
+        again, other = "y1", lambda s: "Y%d,1,0,%d,-" % (s, vrf)
+        rel = [rng.choice(["I4%s", "L41/1,%s"]) % a for a in v4]
+        clear = "n1"
+    else:
+        first = "Z1,1,0,0,%d,-,-" % vrf
+        again, other = "z1", lambda s: "Z%d,1,0,0,%d,-,-" % (s, vrf)
+        rel = [rng.choice(["In%s", "Ln1/1,%s"]) % a for a in v6] + [rng.choice(["Id%s", "Ld1/1,%s"]) % p for p in pd]
+        clear = "m1"
+    ops.append(first)
+    if rng.random() < 0.5:
+        ops.append(again)                        # benign re-entry: still ours
+    k = rng.random()
+    if k < 0.6:
+        ops += rel                               # released behind the context's back
+        ops += [other(2 + i) for i in range(max(size, npd))]   # others take everything
+        ops.append(again)                        # stale context: must be refused
+        if rng.random() < 0.5:
+            ops += [clear, again]                # the caller drops the address and tries again: pool is full
+    elif k < 0.8:
+        ops += rel + [again, again]              # released, nobody took it: re-entry stakes it again
+        ops += [other(2 + i) for i in range(max(size, npd))]
+    else:
+        ops += [other(2 + i) for i in range(max(size, npd))] + [again, clear, again]
+    ops += ["A41,1,0,%d" % vrf, "An1,1,0,%d" % vrf, "Ad1,1,0,%d" % vrf] * 2
+    return "res 3 %s ; %s" % (" ".join(toks), " ".join(ops))
 
 
 def gen_overlap(rng):
@@ -515,6 +569,8 @@ def gen_cases(rng, tier, budget):
         cases.append(gen_overlap(rng))
     for _ in range(24 if tier == "quick" else 150):
         cases.append(gen_geometry(rng))
+    for _ in range(n * 5 // 100):
+        cases.append(gen_reentry(rng))
     # bounded-exhaustive block
     lo, hi, ex, alpha = exhaustive_small()
     L = 2 if tier == "quick" else 4
@@ -683,7 +739,7 @@ def parse_reg(head):
 
 def reg_vrfs(entries, shared):
     """effective VRF per (fam, key): last non-empty VRF configured under the key, per family (the
-    property) or across families (shared=True: the single poolVRFs map of the code as found)"""
+    property) or across families (shared=True: the single poolVRFs map of the code before 85029df)"""
     m = {}
     for pf, fam, _, pools in entries:
         for q in pools:
@@ -723,12 +779,12 @@ def monitor_reg(head, ops, outs):
             v = check(i, op, op[1], pf, ov, vrf, o[1:].split("=")[0])
             if v:
                 return v
-        elif op[0] == "Y" and o.startswith("r") and not o.endswith("@-"):
+        elif op[0] == "Y" and o.startswith("r") and not o.endswith("@-") and "," in op:
             s, pf, ov, vrf, have = op[1:].split(",")
             v = check(i, op, "4", pf, ov, vrf, o.split("@")[1])
             if v:
                 return v
-        elif op[0] == "Z":
+        elif op[0] == "Z" and "," in op:
             s, pf, naov, pdov, vrf, hna, hpd = op[1:].split(",")
             fl = dict(x.split("=", 1) for x in o.split(";")[1:] if "=" in x)
             if fl.get("napool", "-") != "-":
@@ -783,76 +839,12 @@ def classify(case, impl, model):
         return "P", "op %d %s: answer %s is not admissible (%s)" % (k, op, a, m.split(":", 1)[1])
     if k < len(ops) and op[0] in "RLPICV" and kind(head) in ("pool", "pd"):
         return "P", "op %d %s: returned %s, the proved model says %s" % (k, op, a, m)
-    if k < len(ops) and op[0] in "YZ":
+    if k < len(ops) and op[0] in "YZyz":
         return "P", "op %d %s: Resolve returned %s, the proved model says %s" % (k, op, a, m)
     if kind(head) == "reg" and (k >= len(ops) or op[0] == "V") and "=" in a + m or (k < len(ops) and op[0] == "V"):
         return "P", "%s: %s free, the proved model says %s (a lease was dropped or kept in the wrong pool)" % (
             ("op %d %s" % (k, op)) if k < len(ops) else "end of history", a, m)
     return "G", "first difference at op %d %s: impl=%s model=%s" % (k, op, a, m)
-
-
-def signature(case, impl, models):
-    """Specific signatures for the recorded defects; anything else is unexplained."""
-    head, ops = split_case(case)
-    RANGE = "pool.buildFreeList:range-loop-never-terminates"
-
-    def hangs(lo, hi):
-        """range ends (after Unmap) for which `for a := lo; a.Compare(hi) <= 0; a = a.Next()` never ends"""
-        if lo is None or hi is None:
-            return False
-        if lo[0] != hi[0]:
-            return lo[0] == 4
-        return lo[1] <= hi[1] and hi[1] == (MAX4 if hi[0] == 4 else MAX6)
-    if impl == "hang":
-        if kind(head) == "pool":
-            return RANGE if hangs(parse_addr(head[1]), parse_addr(head[2])) else "unexplained-hang"
-        if kind(head) == "reg":
-            for pf, fam, pgw, pools in parse_reg(head):
-                for q in pools:
-                    if fam != "d" and q["lo"] not in ("-", "junk") and q["hi"] not in ("-", "junk") and \
-                            hangs(parse_addr(q["lo"]), parse_addr(q["hi"])):
-                        return RANGE
-                    for j in range(0, len(q["ex"]), 2):
-                        a, b = q["ex"][j], q["ex"][j + 1]
-                        # parseExcludeRange does not Unmap its bounds
-                        if "junk" not in (a, b) and b != "-" and hangs((int(a[0]), int(a[2:])), (int(b[0]), int(b[2:]))):
-                            return RANGE
-        return "unexplained-hang"
-    if kind(head) == "pd" and int(head[3]) > 128:
-        return "prefix.NewPrefixAllocator:prefix-length-above-128"
-    if kind(head) in ("reg", "res"):
-        # one poolVRFs map for three families: some "profile/pool" key is configured in two families
-        # and the shared map gives one of them another VRF than its own family's configuration
-        entries = parse_reg(head)
-        own, shared = reg_vrfs(entries, False), reg_vrfs(entries, True)
-        for pf, fam, _, pools in entries:
-            for q in pools:
-                k = "%s/%s" % (pf, q["name"])
-                if own(fam, k) != shared(fam, k):
-                    return "registry.poolVRFs:shared-across-families"
-        return "unexplained-registry"
-    if kind(head) == "pd":
-        net, nb, pl = int(head[1]), int(head[2]), int(head[3])
-        base = pd_base(net, nb)
-        for op in ops:
-            if op[0] in "RLC":
-                p = parse_pfx(op[1:].split(",")[-1])
-                if p and p[0] is not None and p[1] == pl and p[2] == 128 and pl > 64 and \
-                        (p[0] >> (128 - nb) != base >> (128 - nb) if nb < 128 else p[0] != base):
-                    return "prefix.prefixToIndex:foreign-prefix-aliases-an-index"
-        return "unexplained-pd"
-    # pool: an address that was reserved although the pool may not hand it out was released afterwards
-    lo, hi, ex = pool_geometry(head)
-    held = set()
-    for op in ops:
-        a = parse_addr(op[1:].split(",")[-1]) if op[0] in "RL" else None
-        if a is None:
-            continue
-        if op[0] == "R" and (not (a[0] == lo[0] and lo[1] <= a[1] <= hi[1]) or a in ex):
-            held.add(a)
-        elif op[0] == "L" and a in held:
-            return "pool.Release:unassignable-address-returned-to-free-list"
-    return "unexplained-pool"
 
 
 def nontrivial(case, out):
